@@ -88,37 +88,50 @@ def to_trace(status, events, image):
     return cfg, tr
 
 
+def _validate_part(args):
+    cfg, part, diagnose = args
+    fd, path = tempfile.mkstemp(prefix='vtrace_', suffix='.json', dir=runner.SCRATCH_ROOT)
+    with os.fdopen(fd, 'w') as f:
+        json.dump({'cfg': cfg, 'traces': [m[0] for m in part]}, f)
+    try:
+        res = tlc.run_tlc('Trace_Asm', 'SPECIFICATION TraceSpec\nINVARIANT Accepted\n', workers=1, env={'TRACE_FILE': path},
+                          timeout=3000, heap='6g')
+        runs = [res]
+        acc = {a['t'] for a in res.tags.get('ACC', [])}
+        where = {}
+        if diagnose and len(acc) < len(part):
+            res2 = tlc.run_tlc('Trace_Asm', 'SPECIFICATION TraceSpec\nINVARIANT Progress\n', workers=1, env={'TRACE_FILE': path},
+                               timeout=3000, heap='6g')
+            runs.append(res2)
+            rank = {'p1': 0, 'p2': 1, 'img': 2, 'done': 3}
+            for a in res2.tags.get('AT', []):
+                cur = where.get(a['t'], ('p1', 0))
+                if (rank[a['ph']], a['k']) >= (rank[cur[0]], cur[1]):
+                    where[a['t']] = (a['ph'], a['k'])
+        out = [(label, j in acc, where.get(j), tr) for j, (tr, label) in enumerate(part, start=1)]
+        return out, runs
+    finally:
+        os.unlink(path)
+
+
 def validate(chk, items, diagnose=True):
-    """items: list of (cfg, trace, label). Groups by cfg, runs TLC once per group. Returns list of (label, accepted, where)."""
+    """items: list of (cfg, trace, label). Groups by cfg, one TLC run per group (groups run concurrently).
+    Returns list of (label, accepted, where, trace)."""
+    from concurrent.futures import ThreadPoolExecutor
     groups = {}
     for cfg, tr, label in items:
         groups.setdefault(json.dumps(cfg, sort_keys=True), []).append((tr, label))
-    results = []
+    jobs = []
     for key, members in groups.items():
         cfg = json.loads(key)
         for off in range(0, len(members), 400):
-            part = members[off:off + 400]
-            fd, path = tempfile.mkstemp(prefix='vtrace_', suffix='.json', dir=runner.SCRATCH_ROOT)
-            with os.fdopen(fd, 'w') as f:
-                json.dump({'cfg': cfg, 'traces': [m[0] for m in part]}, f)
-            try:
-                res = tlc.run_tlc('Trace_Asm', 'SPECIFICATION TraceSpec\nINVARIANT Accepted\n', workers=1, env={'TRACE_FILE': path},
-                                  timeout=3000, heap='8g')
-                chk.add_tlc(res)
-                acc = {a['t'] for a in res.tags.get('ACC', [])}
-                where = {}
-                if diagnose and len(acc) < len(part):
-                    res2 = tlc.run_tlc('Trace_Asm', 'SPECIFICATION TraceSpec\nINVARIANT Progress\n', workers=1, env={'TRACE_FILE': path},
-                                       timeout=3000, heap='8g')
-                    for a in res2.tags.get('AT', []):
-                        cur = where.get(a['t'], ('p1', 0))
-                        rank = {'p1': 0, 'p2': 1, 'img': 2, 'done': 3}
-                        if (rank[a['ph']], a['k']) >= (rank[cur[0]], cur[1]):
-                            where[a['t']] = (a['ph'], a['k'])
-                for j, (tr, label) in enumerate(part, start=1):
-                    results.append((label, j in acc, where.get(j), tr))
-            finally:
-                os.unlink(path)
+            jobs.append((cfg, members[off:off + 400], diagnose))
+    results = []
+    with ThreadPoolExecutor(max_workers=6) as ex:
+        for out, runs in ex.map(_validate_part, jobs):
+            results.extend(out)
+            for r in runs:
+                chk.add_tlc(r)
     return results
 
 
@@ -132,13 +145,16 @@ def random_program(rng: random.Random, n_lines: int):
     zone_used = False
     nlab = 0
     muted = False
+    local_ok = False
     for _ in range(n_lines):
         c = rng.random()
         if c < 0.12:
             nlab += 1
             name = rng.choice(['', '_', '.']) + f'lb{nlab}'
-            if name.startswith('.') and not any(not l.startswith('.') for l in labels):
+            if name.startswith('.') and not local_ok:
                 name = f'lb{nlab}'
+            if not name.startswith('.'):
+                local_ok = True
             labels.append(name)
             lines.append(f'{name}:')
         elif c < 0.30:
@@ -167,6 +183,7 @@ def random_program(rng: random.Random, n_lines: int):
         elif c < 0.88:
             addr += rng.randrange(1, 300)
             lines.append(f'.org {addr}')
+            local_ok = False
         elif c < 0.92:
             t = addr + rng.randrange(-3, 12)
             lines.append(f'.zerountil {t}')
